@@ -34,7 +34,7 @@ ASSUMPTIONS = ["pylops is absent: a stand-in module with an empty LinearOperator
                "phases up to 2*pi*|uv|*|x| ~ 1e2 rad are evaluated in double precision: comparisons use 1e-9 relative to the norm of the reference"]
 QUICK_JOBS = 12
 MIN_MONITORS = {"*": {"vis.operator": 40, "vis.preload_equal": 20, "matrix.operator": 40, "adjoint": 20, "adjoint.inner_product": 20,
-                      "normal_equations.D": 10, "normal_equations.F": 10, "normal_equations.mapped": 10, "util.direct": 20, "history.after_adjoint": 20}}
+                      "normal_equations.D": 10, "normal_equations.F": 10, "normal_equations.mapped": 10, "util.direct": 20, "history.after_adjoint": 20, "restored.operator": 40}}
 RT = 1e-9
 
 
@@ -165,6 +165,24 @@ def run_op(ctx, i):
             if ok2 and ok3 and ok4:
                 good = [bool(relclose(v2, A @ I)), bool(relclose(TM2, A @ M2)), bool(relclose(im2, np.real(A.conj().T @ V)))]
                 ctx.check(all(good), "history.after_adjoint", visibilities_ok=good[0], mapping_matrix_ok=good[1], second_adjoint_ok=good[2], **tag)
+        # a transformer that went through copy / deepcopy / pickle (datasets are copied and shipped to worker processes with it):
+        # the restored object is the same operator, and the original still is
+        if i % 40 != 13:
+            import copy as _copy
+            import pickle as _pickle
+            how = ("copy", "deepcopy", "pickle")[i % 3]
+            okc, T2 = ctx.guarded("restored.operator", lambda: _copy.copy(T) if how == "copy" else _copy.deepcopy(T) if how == "deepcopy"
+                                  else _pickle.loads(_pickle.dumps(T)))
+            if okc:
+                Mr, _ = gen.mapping_matrix(rng, n, 2, kind="signed")
+                for which, Tx in (("restored", T2), ("original_afterwards", T)):
+                    okv, vr = ctx.guarded("restored.operator", lambda: _np(Tx.visibilities_from(image=aa.Array2D(values=full.copy(), mask=mask))))
+                    okm, tr = ctx.guarded("restored.operator", lambda: _np(Tx.transform_mapping_matrix(mapping_matrix=Mr.copy())))
+                    oka, ar = ctx.guarded("restored.operator", lambda: _np(Tx.image_from(visibilities=aa.Visibilities(visibilities=V.copy())).slim))
+                    if okv and okm and oka:
+                        good = [bool(relclose(vr, A @ I)), bool(relclose(tr, A @ Mr)), bool(relclose(ar, np.real(A.conj().T @ V)))]
+                        ctx.check(all(good), "restored.operator", how=how, which=which, visibilities_ok=good[0], mapping_matrix_ok=good[1],
+                                  adjoint_ok=good[2], **tag)
     if (False, "slim") in results and (True, "slim") in results:
         ctx.check(relclose(results[(True, "slim")], results[(False, "slim")], 1e-10), "vis.preload_equal", preload=results[(True, "slim")],
                   direct=results[(False, "slim")], **W)
